@@ -279,6 +279,19 @@ def step (line : String) : String :=
         | _, _ => "bad-op"
       | _ => "bad-op"
     | _, _, _ => "bad-op"
+  | "GO" :: cwd :: root :: out :: ofile :: rest =>
+    match pStr [cwd], pStr [out], pStr [ofile], pCounted pMod rest with
+    | some (cwd, _), some (out, _), some (ofile, _), some (mods, r1) =>
+      match pCounted pOptFiles r1 with
+      | some (plugs, [ord]) =>
+        match natsOf ord, (if root = "!" then some none else (pStr [root]).map fun x => some x.1) with
+        | some ord, some root =>
+          match cliPlanOutputFile cwd root out ofile mods plugs ord with
+          | .ok fs => "ok " ++ showFiles fs
+          | .error _ => "err"
+        | _, _ => "bad-op"
+      | _ => "bad-op"
+    | _, _, _, _ => "bad-op"
   | "W" :: rest =>
     match pFiles rest with
     | some (fs, []) =>
